@@ -1026,6 +1026,11 @@ class InstGen:
         that carries the element's own qualified name (the generic form of that very element)."""
         rng = self.rng
         r = rng.random()
+        if r < 0.07 and not self.json_mode:
+            # binary values carry their encoding in the wrapper type (xs:hexBinary / xs:base64Binary), b"" included
+            from xsdata.models.datatype import XmlBase64Binary, XmlHexBinary
+
+            return rng.choice([XmlHexBinary, XmlBase64Binary])(rng.randbytes(rng.choice([0, 0, 1, 2, 5, 33])))
         if r < 0.6 and not self.json_mode:
             t = T("prim", rng.choice(["str", "int", "bool", "float", "Decimal", "XmlDate", "XmlDuration"]))
             v = gen_leaf(rng, self.m, t, self.L, self.ns_pool, union_safe=True)
